@@ -97,3 +97,32 @@ package cert
 //@   requires ctx != nil && ctx.TbsCertificate != nil
 //@   assigns ctx.PrivateKey; ctx.TbsCertificate.PublicKey
 //@   abstracts err == nil ==> ctx.PrivateKey != nil && keyAlgOf(ctx.PrivateKey) == keyAlg && deep(ctx.TbsCertificate.PublicKey) == spkiDeep(ctx.PrivateKey)
+
+// ---- PEM output (C02, C10, C14): one block of the right type holding the DER of the value
+//@ func (Certificate).WritePem returns (err)
+//@   props C02 C10 C14
+//@   uses fs.smt2
+//@   modifies BufContent
+//@   ensures forall q in [0, unboxRef(w)) :: BufContent(q) == old(BufContent(q))
+//@   ensures @C02,C10,C14 err == nil ==> BufContent(unboxRef(w)) == bcat(old(BufContent(unboxRef(w))), pemCert(deep(c)))
+
+//@ func (*CertificateRequest).WritePem returns (err)
+//@   props C10 C14
+//@   uses fs.smt2
+//@   requires c != nil
+//@   modifies BufContent
+//@   ensures forall q in [0, unboxRef(w)) :: BufContent(q) == old(BufContent(q))
+//@   ensures @C10,C14 err == nil ==> BufContent(unboxRef(w)) == bcat(old(BufContent(unboxRef(w))), pemReq(deep(deref(c))))
+
+//@ func WritePrivateKeyToPem returns (err)
+//@   props C10 C14 C17
+//@   uses fs.smt2
+//@   modifies BufContent
+//@   ensures forall q in [0, unboxRef(w)) :: BufContent(q) == old(BufContent(q))
+//@   ensures @C10,C14,C17 err == nil ==> BufContent(unboxRef(w)) == bcat(old(BufContent(unboxRef(w))), pemKey(prk))
+
+//@ func MarshalPKCS8PrivateKey returns (res, err)
+//@   props C17
+//@   uses fs.smt2
+//@   unverified PKCS#8 assembly (C17) not yet under contract
+//@   abstracts err == nil ==> bytes(res) == pkcs8(key)
